@@ -169,7 +169,10 @@ def head (p : Path) (n : Nat) : List UInt8 := (p.pending.extract 0 n).toList
 /-- `mpt_path_add(path, n)`: the first `n` pending bytes become a new element, one more byte is the
     separator/assign slot -/
 def add (p : Path) (n : Nat) : Except Err Path :=
-  if !p.hasBuf then .error .MissingBuffer
+  if !p.hasBuf then
+    -- without storage only an empty first element can be added (it gets a buffer for its separator slot)
+    (if n != 0 || !p.elems.isEmpty then .error .MissingBuffer
+     else .ok { p with elems := [[]], pending := #[], hasBuf := true, first := 0, keep := false })
   else if p.pending.size < n then .error .BadValue
   else if (p.head n).contains sep then .error .BadValue
   else .ok { p with
@@ -396,11 +399,20 @@ def optExit (cfg : Cfg) (e : OptExit) (src : Src) : Out :=
   | .brk s => optFinish cfg s src
   | .comment s => let r := endline s src; optFinish cfg r.1 r.2
 
+/-- the character `mpt_parse_option` starts with: the next visible one — or, when the caller has already stored
+    the first character of the name (`valid != 0`), simply the next character (not saved, lines counted) -/
+def optFirst (f : Format) (s : St) (src : Src) : Option UInt8 × St × Src :=
+  if s.valid != 0 then
+    match getc src with
+    | (none, src1) => (none, s, src1)
+    | (some c, src1) => (some c, { s with line := if c == 10 then s.line + 1 else s.line }, src1)
+  else nextvis f s src
+
 /-- `mpt_parse_option` -/
 def parseOption (cfg : Cfg) (s : St) (src : Src) : Out :=
   let f := cfg.fmt
   let onm := Flag.option ||| Flag.name
-  match nextvis f s src with
+  match optFirst f s src with
   | (none, s1, src1) =>
     let s2 := { s1 with curr := if s1.valid != 0 then onm else Flag.option }
     if cfg.eof != -2 then err .BadArgument s2 src1
